@@ -310,8 +310,18 @@ def check_view(box, ref, bad=None):
                     if kind == "g":
                         rn = node.require_group(form)
                         bad.chk(rn.name == f"{pref}/{rel}" and is_grouplike(rn), "require-wrong", lambda: f"require_group({form!r}) at {gp} -> {rn!r}")
+                    else:
+                        rds = ref[f"{pref}/{rel}"]
+                        try:  # only where the plain tree accepts the same call
+                            ref.require_dataset(f"{pref}/{rel}", shape=rds.shape, dtype=rds.dtype)
+                            plain_ok = True
+                        except Exception:  # noqa
+                            plain_ok = False
+                        if plain_ok:
+                            rn = node.require_dataset(form, shape=rds.shape, dtype=rds.dtype)
+                            bad.chk(rn.name == f"{pref}/{rel}" and not is_grouplike(rn), "require-wrong", lambda: f"require_dataset({form!r}) at {gp} -> {rn!r}")
                 except Exception as e:  # noqa
-                    bad.chk(False, "lookup-raises", f"in/get/require_group({form!r}) at {gp} raised {type(e).__name__}: {e}")
+                    bad.chk(False, "lookup-raises", f"in/get/require_*({form!r}) at {gp} raised {type(e).__name__}: {e}")
         try:
             bad.chk("zz_absent" not in node and node.get("zz_absent") is None, "in-true-absent", f"absent name reported present in {gp}")
         except Exception as e:  # noqa
@@ -319,7 +329,7 @@ def check_view(box, ref, bad=None):
     # the lookups / require_group above must not have changed anything
     try:
         ud2 = L.user_dump(c, with_meta=False)
-        bad.chk(ud2 == ud, "lookup-effect", "in/get/require_group of existing nodes changed the user view")
+        bad.chk(ud2 == ud, "lookup-effect", "in/get/require_* of existing nodes changed the user view")
     except Exception as e:  # noqa
         bad.chk(False, "dump-raises", f"second user_dump raised {type(e).__name__}")
     return bad
@@ -440,18 +450,17 @@ def single_call_case(kind, d, history, recv_path, variant, path):
 
 
 def untouchability(rec, kind, d, history, box, stats, deadline):
-    """(b) on the state held by `box` (raw tree must stay unchanged). Returns False if the box got corrupted."""
+    """(b) on the state held by `box`. Returns the box to go on with (rebuilt from `history` whenever a call had an effect)."""
     groups, dsets = _user_nodes(box)
     receivers = ["/"] + groups[:3]
-    intact = True
     for recv_path in receivers:
-        if time.time() > deadline or not intact:
+        if time.time() > deadline:
             break
         shapes = path_shapes(box.raw, recv_path, groups, dsets)
         before = L.raw_dump(box.raw)
         r, u_ds, u_grp, u_grp_node = _ctx(box, recv_path, groups, dsets)
         for variant in ALL_VARIANTS:
-            if (kind, variant) in stats["hung"]:
+            if (kind, variant) in stats["hung"] or time.time() > deadline:
                 continue  # already reported as non-terminating on this driver; every further call costs the watchdog time
             suspects = []
             for label, p in shapes:
@@ -462,40 +471,47 @@ def untouchability(rec, kind, d, history, box, stats, deadline):
                 stats["calls"] += 1
                 if out == "hang":
                     stats["hung"].add((kind, variant))
-                stats["outcomes"][out + ":" + det if out == "raised" else out] = stats["outcomes"].get(out + ":" + det if out == "raised" else out, 0) + 1
-                shape_class = label.split(":")[0] + ":" + label.split(":")[1]
+                okey = out + ":" + det if out == "raised" else out
+                stats["outcomes"][okey] = stats["outcomes"].get(okey, 0) + 1
                 rec.case((kind, variant, label, recv_path != "/", digest(history)), nontrivial=True)
                 case = {"part": "b", "kind": kind, "history": history, "receiver": recv_path, "variant": variant, "path": p, "label": label}
-                ok = out in ("raised", "invisible")
                 rec.check(
-                    ok,
+                    out in ("raised", "invisible"),
                     f"c08:untouch:{variant}:{out}",
                     f"{variant} with reserved path {p!r} ({label}) on receiver {recv_path} was not rejected: {out} {det} (driver {kind})",
                     case=case,
                     fns=["container/wrappers.py:MetadorGroup." + _fn_of(variant)],
                 )
-                suspects.append((label, p, case, shape_class))
+                suspects.append((label, p, case))
                 if out == "hang":
                     break
-            # effect check at batch granularity; localise on mismatch
+            # effect check at batch granularity; localised per call the first time a variant shows an effect on this driver
             after = L.raw_dump(box.raw)
-            if after != before:
-                intact = False
-                for label, p, case, shape_class in suspects:
-                    out, det, eff, diff = single_call_case(kind, d, history, recv_path, variant, p)
-                    rec.check(
-                        not eff,
-                        f"c08:untouch:{variant}:effect",
-                        f"{variant} with reserved path {p!r} ({label}) on receiver {recv_path}: {out} {det} but the raw tree changed: {diff} (driver {kind})",
-                        case=case,
-                        fns=["container/wrappers.py:MetadorGroup." + _fn_of(variant)],
-                    )
-                break
-            else:
+            if after == before:
                 stats["effect_checks"] += 1
-        if not intact:
-            break
-    return intact
+                continue
+            sig = f"c08:untouch:{variant}:effect"
+            fns = ["container/wrappers.py:MetadorGroup." + _fn_of(variant)]
+            if (kind, variant) not in stats["localised"]:
+                stats["localised"].add((kind, variant))
+                found = False
+                for label, p, case in suspects:
+                    out, det, eff, diff = single_call_case(kind, d, history, recv_path, variant, p)
+                    found = found or eff
+                    rec.check(not eff, sig, f"{variant} with reserved path {p!r} ({label}) on receiver {recv_path}: {out} {det} but the raw tree changed: {diff} (driver {kind})", case=case, fns=fns)
+                if not found:
+                    rec.check(False, sig + ":batch", f"{variant} batch on receiver {recv_path} changed the raw tree but no single call reproduces it (driver {kind})", case=suspects[0][2], fns=fns)
+            else:
+                b_, a_ = set(L.dump_paths(before)), set(L.dump_paths(after))
+                rec.check(False, sig, f"{variant} with reserved paths on receiver {recv_path}: rejected calls changed the raw tree: added {sorted(a_ - b_)[:4]} removed {sorted(b_ - a_)[:4]} (driver {kind})", case=suspects[0][2], fns=fns)
+            stats["effects"][variant] = stats["effects"].get(variant, 0) + 1
+            # the state is corrupted now: rebuild it and go on with the next variant
+            box.destroy()
+            box, ref_, _ = build(kind, d, history)
+            ref_.close()
+            before = L.raw_dump(box.raw)
+            r, u_ds, u_grp, u_grp_node = _ctx(box, recv_path, groups, dsets)
+    return box
 
 
 def _fn_of(variant):
@@ -554,7 +570,7 @@ def run(tier: str, seed: int) -> dict:
     t0 = time.time()
     unc = uncovered_protocol_members()
     rec.check(not unc, "c08:protocol:uncovered-member", f"protocol members without a call variant in the driver's table: {unc}", case={"part": "proto"}, fns=["util/types.py:H5GroupLike"])
-    stats = {"calls": 0, "effect_checks": 0, "outcomes": {}, "hung": set()}
+    stats = {"calls": 0, "effect_checks": 0, "outcomes": {}, "hung": set(), "localised": set(), "effects": {}}
     reached = {}
     status_notes = {}
     with tmpdir(prefix="vrc2_c08_") as d:
@@ -572,7 +588,8 @@ def run(tier: str, seed: int) -> dict:
                 if time.time() > t_end or rec.full:
                     break
                 if level != last_level:
-                    complete.append(last_level)
+                    if last_level <= 2 and last_level not in complete:
+                        complete.append(last_level)
                     last_level = level
                 bad, info, box, ref = eval_history_a(kind, d, history)
                 try:
@@ -591,7 +608,7 @@ def run(tier: str, seed: int) -> dict:
                         seen_states.add(info["state"])
                         if b_time <= 0.5 * (time.time() - t_start) or history == PREM or (level == 0 and kind == "h5" and len(history) >= len(PRE)):
                             tb = time.time()
-                            untouchability(rec, kind, d, history, box, stats, t_end)
+                            box = untouchability(rec, kind, d, history, box, stats, t_end)
                             b_time += time.time() - tb
                             bstates += 1
                 finally:
@@ -604,7 +621,7 @@ def run(tier: str, seed: int) -> dict:
         for b in _SNAP.values():
             b.destroy()
         _SNAP.clear()
-    rec.notes.append(f"(b) calls={stats['calls']} batch effect checks={stats['effect_checks']} outcomes={stats['outcomes']}")
+    rec.notes.append(f"(b) calls={stats['calls']} batches with unchanged raw tree={stats['effect_checks']} batches with effect per variant={stats['effects']} outcomes={stats['outcomes']}")
     rec.notes.append("(b) raw-tree-unchanged is evaluated once per (state, receiver, method variant) batch over all path shapes and localised per call on mismatch")
     rec.notes.append("ih5/ih5mf: the plain reference tree is an in-memory h5py file; divergences that also occur on a plain IH5Record without container are labelled ih5-overlay (see C01/C09)")
     if status_notes:
